@@ -258,13 +258,19 @@ ExpV(v) == IF IsU(v) THEN v ELSE IF IsQ(v) THEN Fn1("exp", v) ELSE Res1("exp", v
 DenGRLV(x, dtv, f, g, deltaV) ==
   IF IsU(f) THEN f ELSE IF IsU(g) THEN g
   ELSE IF ~IsQ(g) THEN U("residual-slope")
+  ELSE IF QEq(QAbs(g), deltaV) /\ ~(g.ex /\ deltaV.ex) THEN U("fragile-tie")   \* float rounding may fall on either side
   ELSE IF QLe(QAbs(g), deltaV) THEN DenEulerV(x, dtv, f)
   ELSE Arith("add", x, Arith("mul", Arith("div", f, g), Arith("sub", ExpV(Arith("mul", g, dtv)), QOne)))
 DenEuler(mi, inp) == LET den == DenAll(mi, inp) IN
   [s \in mi.sN |-> DenEulerV(inp.states[s], inp.dt, den[DName(s)])]
 DenGRL(mi, inp, deltaV, stiff) == LET den == DenAll(mi, inp) IN
-  [s \in mi.sN |-> IF s \in stiff THEN DenGRLV(inp.states[s], inp.dt, den[DName(s)], RateSlope(mi, s, den), deltaV)
+  [s \in mi.sN |-> IF s \in stiff /\ s \in Vars(mi.ex[DName(s)])      \* a rate without its own state: g is identically zero
+                   THEN DenGRLV(inp.states[s], inp.dt, den[DName(s)], RateSlope(mi, s, den), deltaV)
                    ELSE DenEulerV(inp.states[s], inp.dt, den[DName(s)])]
+
+\* equality of observations up to the reason of undefinedness
+SameVal(a, b) == (IsU(a) /\ IsU(b)) \/ a = b
+SameVals(f, g) == DOMAIN f = DOMAIN g /\ \A k \in DOMAIN f : SameVal(f[k], g[k])
 
 \* ---------------------------------------------------------------------------
 \* observations on emitted functions
